@@ -11,7 +11,7 @@ def nonSkipped (t : Tree) : List Leaf := (leavesTop t).filter (fun l => !l.info.
 theorem nameMap_leaves (t : Tree) (hn : Bool) (n : String) :
     nameMap hn (flatten t) n =
       if (nonSkipped t).any (fun l => decide (l.info.name = n) && !genShadow t l.depth l.info.name && !(hn && !l.marked))
-      then some (Transfer.camelS n) else none := by
+      then some (paramName n) else none := by
   unfold nameMap
   rw [flatten_closed]
   have h1 : ∀ (L : List Field) (Q : Field → Bool),
@@ -47,11 +47,11 @@ theorem mem_visible {t : Tree} (hts : topSkipShadows t = false) {l : Leaf} (hl :
 
 /-- L3: for a visible, non-skipped leaf the name-keyed map answers for that very leaf -/
 theorem nameMap_of_leaf (t : Tree) (hn : Bool) (hts : topSkipShadows t = false)
-    (hnd : ((visibleLeaves t).map (fun l => Transfer.camelS l.info.name)).Nodup)
+    (hnd : ((visibleLeaves t).map (fun l => paramName l.info.name)).Nodup)
     (l : Leaf) (hl : l ∈ leavesTop t) (hsk : l.info.skip = false)
     (hsh : genShadow t l.depth l.info.name = false) :
     nameMap hn (flatten t) l.info.name =
-      if (!hn || l.marked) then some (Transfer.camelS l.info.name) else none := by
+      if (!hn || l.marked) then some (paramName l.info.name) else none := by
   rw [nameMap_leaves]
   have hvis := mem_visible hts hl hsh
   have : (nonSkipped t).any (fun l' => decide (l'.info.name = l.info.name) &&
@@ -118,9 +118,9 @@ theorem paramNames_leaves (t : Tree) (hn : Bool) :
     · simp
 
 theorem eligible_iff_leafParam (t : Tree) (hts : topSkipShadows t = false)
-    (hnd : ((visibleLeaves t).map (fun l => Transfer.camelS l.info.name)).Nodup)
+    (hnd : ((visibleLeaves t).map (fun l => paramName l.info.name)).Nodup)
     (l : Leaf) (hl : l ∈ leavesTop t) :
-    leafParam t (hasNewTop t) l = if eligible t l then some (Transfer.camelS l.info.name) else none := by
+    leafParam t (hasNewTop t) l = if eligible t l then some (paramName l.info.name) else none := by
   unfold leafParam eligible
   have hag := shadow_agrees t hts l hl
   by_cases hs : l.info.skip
@@ -137,8 +137,8 @@ theorem eligible_iff_leafParam (t : Tree) (hts : topSkipShadows t = false)
 
 /-- L4: the parameters are the eligible leaves in depth-first declaration order -/
 theorem paramNames_spec (t : Tree) (hts : topSkipShadows t = false)
-    (hnd : ((visibleLeaves t).map (fun l => Transfer.camelS l.info.name)).Nodup) :
-    (gen t).params.map Prod.fst = (specParams t).map (fun l => Transfer.camelS l.info.name) := by
+    (hnd : ((visibleLeaves t).map (fun l => paramName l.info.name)).Nodup) :
+    (gen t).params.map Prod.fst = (specParams t).map (fun l => paramName l.info.name) := by
   simp only [gen, Bool.false_or]
   rw [paramNames_leaves]
   unfold specParams
